@@ -1,0 +1,60 @@
+//go:build verif
+
+package pubsub
+
+import "sort"
+
+// VerifSubscription is one entry of the subscription tree.
+type VerifSubscription struct {
+	ConnID  uint64
+	Pattern bool
+	Channel string
+}
+
+// VerifConnCount returns the number of connections the registry knows (a
+// connection is registered by its first (P)SUBSCRIBE and removed when it ends).
+func (s *Service) VerifConnCount() int {
+	ps := s.pubsub
+	ps.mu.RLock()
+	defer ps.mu.RUnlock()
+	return len(ps.conns)
+}
+
+// VerifSubscriptions returns the content of the subscription tree (what
+// Publish iterates over) and, separately, the per-connection entry sets
+// (what the PUBSUB introspection commands iterate over), both sorted.
+func (s *Service) VerifSubscriptions() (tree []VerifSubscription, perConn []VerifSubscription) {
+	ps := s.pubsub
+	ps.mu.RLock()
+	defer ps.mu.RUnlock()
+	if !ps.initd {
+		return nil, nil
+	}
+	ps.chans.Ascend(nil, func(item interface{}) bool {
+		e := item.(*pubSubEntry)
+		tree = append(tree, VerifSubscription{ConnID: e.sconn.id, Pattern: e.pattern, Channel: e.channel})
+		return true
+	})
+	for _, sconn := range ps.conns {
+		sconn.mu.Lock()
+		for e := range sconn.entries {
+			perConn = append(perConn, VerifSubscription{ConnID: sconn.id, Pattern: e.pattern, Channel: e.channel})
+		}
+		sconn.mu.Unlock()
+	}
+	less := func(l []VerifSubscription) func(i, j int) bool {
+		return func(i, j int) bool {
+			a, b := l[i], l[j]
+			if a.Pattern != b.Pattern {
+				return !a.Pattern
+			}
+			if a.Channel != b.Channel {
+				return a.Channel < b.Channel
+			}
+			return a.ConnID < b.ConnID
+		}
+	}
+	sort.Slice(tree, less(tree))
+	sort.Slice(perConn, less(perConn))
+	return tree, perConn
+}
